@@ -29,7 +29,7 @@ func (r *Rng) Intn(n int) int {
 	}
 	return int(r.U64() % uint64(n))
 }
-func (r *Rng) Bool() bool          { return r.U64()&1 == 1 }
+func (r *Rng) Bool() bool           { return r.U64()&1 == 1 }
 func (r *Rng) Chance(p, q int) bool { return r.Intn(q) < p }
 func (r *Rng) Bytes(n int) []byte {
 	b := make([]byte, n)
